@@ -7,6 +7,7 @@ package main
 // through the same protocol, so the Lean spec's state is compared with the engine's after every step.
 
 import (
+	"encoding/json"
 	"bytes"
 	"fmt"
 	"os"
@@ -404,6 +405,12 @@ func (s *seqRun) wellFormed(q rawReq, resp engResp, co canonOut, line string) {
 	}
 	for _, n := range co.notes {
 		s.c.Fail("C15:"+n, "engine:"+n, fmt.Sprintf("%s %s -> %d %s body %q", q.method, q.path, resp.status, resp.header.Get("Content-Type"), clip(string(resp.body), 300)), append([]string(nil), s.ops...))
+	}
+	// "a malformed body is a client error rather than silent acceptance": a body declared as JSON that is not ONE JSON
+	// value (trailing bytes, a second value, truncation) is never answered 200 by the endpoints that read JSON
+	if resp.status == 200 && (q.method == "PATCH" || q.method == "PUT") && strings.HasPrefix(q.ctype, ctJson) &&
+		(q.path == pModel || strings.HasPrefix(q.path, pSubPrefix)) && !json.Valid(q.body) {
+		s.c.Fail("C15:malformed-body-is-client-error", "engine:malformed-json-accepted", fmt.Sprintf("%s %s with a body that is not one JSON value (%q) was answered 200", q.method, q.path, clip(string(q.body), 200)), append([]string(nil), s.ops...))
 	}
 }
 
